@@ -34,6 +34,10 @@ from harness import c20cases
 from harness import c20udf
 
 PROP = 'C20'
+# Many short single-worker TLC runs (16 shards per validation round): keep each
+# JVM small.  The model-checking run of SqliteAgg keeps the full JIT.
+JVM_SHORT = '-XX:ParallelGCThreads=2 -XX:TieredStopAtLevel=1'
+JVM_MODEL = '-XX:ParallelGCThreads=4'
 
 RULE = (
     'UDF level: ALL step sequences of spec/SqliteAgg.tla within the bounds in '
@@ -111,7 +115,7 @@ def UdfConformance(tier):
     if key not in seen:
       seen.add(key)
       uniq.append(b)
-  lines = c20udf.Replay(uniq, c20udf.TIER_INTERP[tier],
+  lines = c20udf.Replay(uniq, c20udf.TIER_INTERP[tier], workers=4,
                         per_behaviour=1 if tier == 'quick' else 2)
   res['t_replay'] = clock() - res['t_model']
   shards = max(1, min(common.NCPU, len(lines) // 3000 + 1))
@@ -147,6 +151,7 @@ def UdfConformance(tier):
 
 
 def _UdfMain(tier, path):
+  os.environ['JAVA_TOOL_OPTIONS'] = JVM_MODEL
   try:
     res = UdfConformance(tier)
   except BaseException as e:  # pylint: disable=broad-except
@@ -191,6 +196,7 @@ def Run(tier):
   udf_path = os.path.join(common.BuildDir('c20'), 'udf_%s.json' % tier)
   if os.path.exists(udf_path):
     os.unlink(udf_path)
+  os.environ.setdefault('JAVA_TOOL_OPTIONS', JVM_SHORT)
   ctx = multiprocessing.get_context('fork')
   proc = ctx.Process(target=_UdfMain, args=(tier, udf_path))
   proc.start()
